@@ -81,7 +81,9 @@ func (conv *lfToCRLFWriter) Write(data []byte) (int, error) {
 		}
 
 		switch {
-		case idx == 0 && conv.hadCR:
+		case idx == 0 && n == 0 && conv.hadCR:
+			// The LF is the very first byte of this Write and the previous
+			// Write ended in CR: the pair is a CRLF split across two writes.
 			fallthrough
 		case idx > 0 && window[idx-1] == '\r':
 			w, err := conv.w.Write(window[:idx+1])
